@@ -7,6 +7,9 @@ import IcingaProofs.C20.Lemmas
 import IcingaProofs.C20.SpecLemmas
 import IcingaProofs.C20.JsonLemmas
 import IcingaProofs.C20.MessageLemmas
+import IcingaProofs.C20.DictLemmas
+import IcingaProofs.C20.Utf8Lemmas
+import IcingaModel.C20.SpecText
 
 namespace Icinga.C20
 
@@ -362,6 +365,76 @@ example : jsonDecode intCodec (jsonEncode intCodec sampleValue) = some sampleVal
 example : (jsonDecode intCodec (asciiBytes "[1,]")).isNone = true := by decide +kernel
 example : jsonDecodeString (asciiBytes "\"\\ud800\"") = none := by decide +kernel
 
+/-! ## UTF-8 layer (IcingaModel/C20/Utf8.lean: utf8cpp's validate_next / replace_invalid as Utility::ValidateUTF8 uses them) -/
+
+/-- **utf8_roundtrip.**  Every sequence of Unicode scalar values survives UTF-8 encoding and strict decoding; and the
+    strict decoder accepts nothing but canonical encodings (no overlongs, surrogates, code points above U+10FFFF). -/
+theorem utf8_roundtrip (s : List Char) :
+    utf8Decode (utf8Encode s) = some s ∧ ∀ bs, utf8Decode bs = some s → bs = utf8Encode s :=
+  ⟨utf8_roundtrip_aux s, fun bs h => utf8Decode_eq_some_aux bs s h⟩
+
+/-- **sanitise_fixes_wellformed.**  `ValidateUTF8` leaves well-formed text unchanged. -/
+theorem sanitise_fixes_wellformed (s : List Char) : sanitise (utf8Encode s) = utf8Encode s :=
+  sanitise_fixes_wellformed_aux s
+
+/-- **sanitise_wellformed.**  On arbitrary bytes the output of `ValidateUTF8` is well-formed UTF-8. -/
+theorem sanitise_wellformed (bs : List UInt8) : ∃ s, sanitise bs = utf8Encode s :=
+  sanitise_wellformed_aux bs
+
+/-- **sanitise_idempotent.** -/
+theorem sanitise_idempotent (bs : List UInt8) : sanitise (sanitise bs) = sanitise bs :=
+  sanitise_idempotent_aux bs
+
+/-- **sanitise_model_meets_spec.**  For every byte string the model of the sanitising step satisfies the executable
+    specification `sanitiseSpec` the driver evaluates on the implementation's observations. -/
+theorem sanitise_model_meets_spec (bs : List UInt8) : sanitiseSpec bs (sanitise bs) = none := by
+  unfold sanitiseSpec
+  have h1 := utf8Decode_sanitise_isSome bs
+  have h1' : (utf8Decode (sanitise bs)).isNone = false := by
+    cases h : utf8Decode (sanitise bs) <;> simp [h] at h1 ⊢
+  simp only [h1', Bool.false_eq_true, if_false]
+  cases h : utf8Decode bs with
+  | none => simp
+  | some s =>
+    have := utf8Decode_eq_some_aux bs s h
+    rw [this, sanitise_fixes_wellformed_aux]; simp
+
+example : sanitiseSpec [0xC0, 0x80] [0xC0, 0x80] = some .utf8Wellformed := by decide +kernel
+example : sanitiseSpec [0xC3, 0xA9] [0xEF, 0xBF, 0xBD] = some .utf8KeepsValid := by decide +kernel
+example : sanitise [0xE2, 0x28, 0xA1] = [0xEF, 0xBF, 0xBD, 0x28, 0xEF, 0xBF, 0xBD] := by decide +kernel
+
+/-- **json_roundtrip_bytes.**  The round trip composed down to bytes: for a value whose strings and keys are arbitrary
+    byte strings (what an Icinga `Value` holds), `JsonDecode (JsonEncode v)` — sanitise, escape, parse, re-encode as
+    UTF-8 — is `v` with every string sanitised; hence `v` itself when its strings are well-formed UTF-8.  (The encoded
+    text is pure ASCII, so the decoder's own sanitising step is the identity on it.) -/
+theorem json_roundtrip_bytes {N : Type} (c : NumCodec N) (hc : c.Lawful) (v : BValue N) :
+    jsonDecodeB c (jsonEncodeB c v) = some v.sanitised ∧
+    (v.sanitised = v → jsonDecodeB c (jsonEncodeB c v) = some v) :=
+  ⟨json_roundtrip_bytes_aux c hc v, json_roundtrip_bytes_wellformed c hc v⟩
+
+/-! ## Dictionaries as Icinga holds them (std::map: sorted by key, `Set` overwrites) — IcingaModel/C20/Dict.lean -/
+
+/-- **json_roundtrip_dict.**  Seen as Icinga values (every dictionary a key-sorted, duplicate-free map — which is
+    what `Dictionary` is, so the encoder emits members in ascending key order), every value survives
+    `JsonDecode ∘ JsonEncode` unchanged.  `icingaDecode` = parse, then build every object with `Dictionary::Set`
+    in textual order. -/
+theorem json_roundtrip_dict {N : Type} (c : NumCodec N) (hc : c.Lawful) (v : JValue N) (hv : Canonical v) :
+    icingaDecode c (jsonEncode c v) = some v :=
+  json_roundtrip_dict_aux c hc v hv
+
+/-- **json_decode_encode_any.**  What happens otherwise (member lists that are unsorted or contain duplicate keys,
+    e.g. hostile text): the result is the canonical form — sorted by key, the LAST of several equal keys wins
+    (`canon_last_wins`) — and it is always an Icinga value; canonicalising is idempotent. -/
+theorem json_decode_encode_any {N : Type} (c : NumCodec N) (hc : c.Lawful) (v : JValue N) :
+    icingaDecode c (jsonEncode c v) = some (canonV v) ∧ Canonical (canonV v) ∧ canonV (canonV v) = canonV v :=
+  ⟨icingaDecode_jsonEncode_aux c hc v, canonV_canonical_aux v, canon_idempotent_aux v⟩
+
+/-- **canon_last_wins.**  Looking a key up in the dictionary built from a member list gives the value of the last
+    member with that key, and the dictionary is sorted. -/
+theorem canon_last_wins {N : Type} (k : List Char) (kvs : List (List Char × JValue N)) :
+    dictGet k (dictOfMembers kvs) = dictGet k kvs.reverse ∧ keysSorted (dictOfMembers kvs) = true :=
+  ⟨canon_last_wins_aux k kvs, dictOfMembers_sorted_aux kvs⟩
+
 /-! ## JSON-RPC messages (JsonRpc::DecodeMessage, the receive loop of JsonRpcConnection) -/
 
 /-- **decode_message_only_objects.**  `DecodeMessage` yields a dictionary exactly when the payload decodes
@@ -438,6 +511,19 @@ theorem recv_message_only_objects {N : Type} (c : NumCodec N) (max : Option Nat)
       subst hk; subst hr
       have hc := netstring_accepts_only_canonical max bs p r (nsReadTls max bs).alloc (by rw [← ho])
       exact ⟨p, hc.1, hc.2.2.1, ((decode_message_only_objects c p).1 k).mp hm⟩
+
+/-- **decode_nesting_unbounded** (Lean side of finding F-C20a).  The property's "processed without crashing"
+    cannot be stated about the model (it has no stack); what the model shows is why the real code fails it: the
+    decoder — transcribed faithfully — enforces no nesting limit.  For every depth `d` there is a text of only
+    `2(d+1)` bytes that is accepted as JSON, whose value nests `d+1` containers (= the depth of the recursion
+    that destroys it), and which `DecodeMessage` rejects only *after* the whole tree has been built.  On the real
+    code a frame with d ≈ 10000 (12 KB; limit for unauthenticated peers: 1 MiB) overflows the 256 KiB coroutine
+    stack: replayed on every run from corpus/C20/known_F-C20a.ops, reported as KNOWN-FINDING. -/
+theorem decode_nesting_unbounded {N : Type} (c : NumCodec N) (hc : c.Lawful) (d : Nat) :
+    ∃ (bs : List UInt8) (v : JValue N), bs.length = 2 * (d + 1) ∧ jsonDecode c bs = some v ∧ depth v = d + 1 ∧
+      decodeMessage c bs = .error .notObject :=
+  ⟨jsonEncode c (nest d), nest d, encode_nest_length c d, json_roundtrip c hc _, depth_nest d, by
+    rw [decode_message_roundtrip c hc]; cases d <;> rfl⟩
 
 -- "null", "42", "[]" are rejected; "{}" is accepted; the specification rejects a null result
 example : obsOfMsg (decodeMessage intCodec (asciiBytes "null")) = .rejected := by decide +kernel
